@@ -103,6 +103,24 @@ fn no_deadlock_case(active: usize) {
             }
         }
         assert!(switched == (n != active));
+        // the decision is recorded with every thread's availability: the chosen
+        // thread Active, other runnable threads (with or without a park token)
+        // Skip -- i.e. eligible for a later backtrack point --, yielded threads
+        // Yield, blocked / finished threads Disabled
+        let mut t = 0;
+        while t < 3 {
+            let rec = crate::rt::path::verif::thread_code_at(&e.path, 0, t);
+            if t == n {
+                assert!(rec == 4);
+            } else if codes[t] <= 1 {
+                assert!(rec == 1);
+            } else if codes[t] == 3 {
+                assert!(rec == 2);
+            } else {
+                assert!(rec == 0);
+            }
+            t += 1;
+        }
         // every other yielded thread is runnable again afterwards; nobody else changes
         let mut t = 0;
         while t < 3 {
